@@ -696,7 +696,10 @@ func (s *Session) parseArgs(arg string) (args map[string]string, ok bool) {
 }
 
 func (s *Session) reset() {
-	s.enterState(READY)
+	if s.state != GREET {
+		// A session that has not been greeted yet stays that way.
+		s.enterState(READY)
+	}
 	s.from = nil
 	s.recipients = nil
 }
